@@ -421,6 +421,100 @@ CASES.update({
         expect="holds", why="`is None` -> `not (is not None)`"),
 })
 
+# ---- rounds 4 / 5: bw64 reader cursor/format/offset kernels, the sites of fixes 61d37f4 / 1404dee, C04 / C02 / C15 / C11
+CH = "ear/fileio/bw64/chunks.py"
+DSP = "ear/core/direct_speakers/panner.py"
+LY = "ear/core/layout.py"
+SBR = "ear/core/scenebased/renderer.py"
+READ = ["read_clamp", "read_nbytes"]
+UPMIX = ["upmix_unmapped_test", "upmix_multi_out_test", "upmix_row_multi_test"]
+VBS = ["vbs_to_xfer", "vbs_full_test", "vbs_loop_test"]
+CASES.update({
+    "read_clamp": dict(
+        file=RD, also=READ, mutation=[("            numberOfFrames = len(self) - self.tell()", "            numberOfFrames = len(self) - self.tell() - 1")],
+        preserving=[("        if(self.tell() + numberOfFrames > len(self)):", "        if len(self) < numberOfFrames + self.tell():")],
+        expect="holds", why="comparison flipped, sum commuted"),
+    "read_nbytes": dict(
+        file=RD, also=READ, mutation=[("            numberOfFrames * self._formatInfo.blockAlignment)", "            numberOfFrames * self._formatInfo.blockAlignment + 1)")],
+        preserving=[("            numberOfFrames * self._formatInfo.blockAlignment)", "            self._formatInfo.blockAlignment * numberOfFrames)")],
+        expect="holds", why="product commuted (Int, re-proved by grind)"),
+    "block_alignment": dict(
+        file=CH, also=["block_alignment", "bytes_per_second"],
+        mutation=[("return int(self.channelCount * self.bitsPerSample / 8)", "return int(self.channelCount * self.bitsPerSample / 4)")],
+        preserving=[("return int(self.channelCount * self.bitsPerSample / 8)", "return int(self.bitsPerSample * self.channelCount / 8)")],
+        expect="holds", why="product commuted (bytes_per_second is stated through block_alignment)"),
+    "bytes_per_second": dict(
+        file=CH, mutation=[("return self.sampleRate * self.blockAlignment", "return self.sampleRate * self.blockAlignment * 2")],
+        preserving=[("return self.sampleRate * self.blockAlignment", "return self.blockAlignment * self.sampleRate")],
+        expect="holds", why="product commuted"),
+    "chunk_position": dict(
+        file=CH, mutation=[("                                       position + 8 + size)", "                                       position + 4 + size)")],
+        preserving=[("                                       position + 8 + size)", "                                       size + position + 8)")],
+        expect="holds", why="sum re-associated"),
+    "chunk_index_args": dict(
+        file=RD, mutation=[("                chunkSize, self._buffer.tell() - 8)", "                chunkSize, self._buffer.tell() - 4)")],
+        preserving=[("                chunkSize, self._buffer.tell() - 8)", "                chunkSize, -8 + self._buffer.tell())")],
+        expect="holds", why="difference written as a sum"),
+    "read_chunk_header_size": dict(
+        file=RD, mutation=[("        elif chunkId == b'data' and chunkSize == 0xFFFFFFFF:", "        elif chunkId == b'data' and chunkSize >= 0xFFFFFFFF:")],
+        preserving=[("        elif chunkId == b'data' and chunkSize == 0xFFFFFFFF:", "        elif chunkSize == 4294967295 and chunkId == b'data':")],
+        expect="holds", why="conjuncts swapped, hex literal written in decimal"),
+    "ds_pan_position": dict(
+        file=DSP, mutation=[("shifted_position.elevation, 1.0)", "shifted_position.elevation, shifted_position.distance)")],
+        preserving=[("            if isinstance(shifted_position, DirectSpeakerPolarPosition):\n                # the point source panner only uses the direction; pan at unit\n                # distance so that a distance of 0 does not result in NaN gains\n                position = cart(shifted_position.azimuth, shifted_position.elevation, 1.0)\n            else:\n                position = shifted_position.as_cartesian_array()",
+                     "            if not isinstance(shifted_position, DirectSpeakerPolarPosition):\n                position = shifted_position.as_cartesian_array()\n            else:\n                position = cart(shifted_position.azimuth, shifted_position.elevation, 1.0)")],
+        expect="holds", why="branches swapped under `not`"),
+    "out_channels": dict(
+        file=LY, mutation=[("out_channels = max(speaker.channel for speaker in speakers) + 1", "out_channels = max(speaker.channel for speaker in speakers) + 2")],
+        preserving=[("out_channels = max(speaker.channel for speaker in speakers) + 1", "out_channels = 1 + max(speaker.channel for speaker in speakers)")],
+        expect="holds", why="sum commuted"),
+    "el_range_test": dict(
+        file=LY, mutation=[("if not self.el_range[0] <= self.polar_position.elevation <= self.el_range[1]:", "if not self.el_range[0] < self.polar_position.elevation <= self.el_range[1]:")],
+        preserving=[("if not self.el_range[0] <= self.polar_position.elevation <= self.el_range[1]:",
+                     "if self.polar_position.elevation < self.el_range[0] or self.polar_position.elevation > self.el_range[1]:")],
+        expect="holds", why="negated chain written as a disjunction"),
+    "upmix_unmapped_test": dict(
+        file=LY, also=UPMIX, mutation=[("            if num_outputs == 0:", "            if num_outputs == 1:")],
+        preserving=[("            if num_outputs == 0:", "            if 0 == num_outputs:")], expect="holds", why="operands of == swapped"),
+    "upmix_multi_out_test": dict(
+        file=LY, also=UPMIX, mutation=[("            if num_outputs > 1:", "            if num_outputs > 2:")],
+        preserving=[("            if num_outputs > 1:", "            if 1 < num_outputs:")], expect="holds", why="comparison flipped"),
+    "upmix_row_multi_test": dict(
+        file=LY, also=UPMIX, mutation=[("            if num_channels > 1:", "            if num_channels >= 1:")],
+        preserving=[("            if num_channels > 1:", "            if num_channels >= 2:")], expect="holds", why="`> 1` -> `>= 2` on a natural number"),
+    "os_block_end": dict(
+        file=CONVOLVER, mutation=[("end = min(len(f), start + self.block_size)", "end = min(len(f), start + self.block_size - 1)")],
+        preserving=[("end = min(len(f), start + self.block_size)", "end = min(self.block_size + start, len(f))")],
+        expect="holds", why="operands of min and + commuted"),
+    "os_range": dict(
+        file=CONVOLVER, mutation=[("for start in range(0, len(f), self.block_size):", "for start in range(1, len(f), self.block_size):")],
+        preserving=[("for start in range(0, len(f), self.block_size):", "for start in range(0x0, len(f), self.block_size):")],
+        expect="holds", why="literal written in hex"),
+    "vbs_to_xfer": dict(
+        file=CONVOLVER, also=VBS, mutation=[("to_xfer = min(n_input - n_done, self.block_size - self.buffer_input)", "to_xfer = min(n_input - n_done, self.block_size + self.buffer_input)")],
+        preserving=[("to_xfer = min(n_input - n_done, self.block_size - self.buffer_input)", "to_xfer = min(self.block_size - self.buffer_input, n_input - n_done)")],
+        expect="holds", why="operands of min swapped (omega)"),
+    "vbs_full_test": dict(
+        file=CONVOLVER, also=VBS, mutation=[("            if self.buffer_input == self.block_size:", "            if self.buffer_input >= self.block_size - 1:")],
+        preserving=[("            if self.buffer_input == self.block_size:", "            if self.block_size == self.buffer_input:")],
+        expect="holds", why="operands of == swapped"),
+    "vbs_loop_test": dict(
+        file=CONVOLVER, also=VBS, mutation=[("        while n_done < n_input:", "        while n_done <= n_input:")],
+        preserving=[("        while n_done < n_input:", "        while n_input > n_done:")], expect="holds", why="comparison flipped"),
+    "clamp_il": dict(
+        file=TF, mutation=[("        and blockFormat.jumpPosition.interpolationLength > audioObject.duration", "        and blockFormat.jumpPosition.interpolationLength >= audioObject.duration + 1")],
+        preserving=[("        and blockFormat.jumpPosition.interpolationLength > audioObject.duration", "        and audioObject.duration < blockFormat.jumpPosition.interpolationLength")],
+        expect="holds", why="comparison flipped"),
+    "il_gt_duration_test": dict(
+        file=TF, mutation=[("            if blockFormat.jumpPosition.interpolationLength > blockFormat.duration:", "            if blockFormat.jumpPosition.interpolationLength < blockFormat.duration:")],
+        preserving=[("            if blockFormat.jumpPosition.interpolationLength > blockFormat.duration:", "            if blockFormat.duration < blockFormat.jumpPosition.interpolationLength:")],
+        expect="holds", why="comparison flipped"),
+    "hoa_output_channels": dict(
+        file=SBR, mutation=[("        self._output_channels = ~layout.is_lfe", "        self._output_channels = layout.is_lfe")],
+        preserving=[("        self._output_channels = ~layout.is_lfe", "        self._output_channels = ~(layout.is_lfe)")],
+        expect="holds", why="redundant parentheses (same AST)"),
+})
+
 # extra behaviour-preserving (over the reals) edits that are EXPECTED to break the equality, with the reason
 EXTRA = [
     dict(kernel="direct_diffuse_split", file=GC, kind="preserving",
@@ -480,6 +574,20 @@ EXTRA = [
     dict(kernel="in_by_id", file=SU, kind="mutation",
          edits=[("return any(element is item for item in collection)", "return any(element is item for item in collection if item is not None)")],
          also=INBY, expect="breaks", why="filtered comprehension under any() -> refused (its callers' theorems go with it)"),
+    # ---- round 4: the other one-token edits of the two repaired sites
+    dict(kernel="read_chunk_header_size", file=RD, kind="mutation",
+         edits=[("        elif chunkId == b'data' and chunkSize == 0xFFFFFFFF:", "        elif chunkId == b'data' or chunkSize == 0xFFFFFFFF:")],
+         expect="breaks", why="`and` -> `or` in the placeholder test of fix 61d37f4"),
+    dict(kernel="read_chunk_header_size", file=RD, kind="mutation",
+         edits=[("        if self.fileFormat in [b'RF64', b'BW64']:\n            if chunkId == b'data':", "        if chunkId == b'data' and chunkSize == 0xFFFFFFFF:\n            raise ValueError(\"placeholder\")\n        elif self.fileFormat in [b'RF64', b'BW64']:\n            if chunkId == b'data':"),
+                ("        elif chunkId == b'data' and chunkSize == 0xFFFFFFFF:\n", "        elif False:\n")],
+         expect="breaks", why="the placeholder test moved before the RF64/BW64 test (every BW64 file would be rejected)"),
+    dict(kernel="ds_pan_position", file=DSP, kind="mutation",
+         edits=[("position = cart(shifted_position.azimuth, shifted_position.elevation, 1.0)", "position = cart(shifted_position.elevation, shifted_position.azimuth, 1.0)")],
+         expect="breaks", why="azimuth and elevation swapped in the call of cart"),
+    dict(kernel="block_alignment", file=CH, kind="mutation", also=["bytes_per_second"],
+         edits=[("return int(self.channelCount * self.bitsPerSample / 8)", "return int(self.channelCount * self.bitsPerSample / 8.0 + 0.5)")],
+         expect="breaks", why="int() of a rational that is not `natural / positive literal` -> refused"),
 ]
 
 
